@@ -36,10 +36,21 @@ pub struct Cfg {
     pub max_args: usize,
     /// hard cap on the number of live variables
     pub max_live: usize,
+    /// the context sizes a definition grows to before it does anything else (one is drawn per definition)
+    pub targets: &'static [usize],
+    /// C09/C10 on the three back ends: more allocations (`let`, `create`), linear consumption (`switch`,
+    /// `invoke`: blocks go to the reuse list), dropping and sharing of objects by substitutions (deferred
+    /// list, counts above zero), fewer prints and comparisons; together with `targets` around the size
+    /// of the register file the new blocks, the loaded fields and the erased variables sit in spill slots
+    pub heap_focus: bool,
 }
 impl Default for Cfg {
-    fn default() -> Self { Cfg { max_args: 5, max_live: 40 } }
+    fn default() -> Self { Cfg { max_args: 5, max_live: 40, targets: &TARGETS, heap_focus: false } }
 }
+/// contexts around the AArch64 register file (13 variables) and the x86-64 one
+pub const TARGETS_SPILL: [usize; 8] = [11, 12, 13, 13, 14, 15, 16, 18];
+/// contexts up to the capacity of the RISC-V back end (14 variables, no spilling)
+pub const TARGETS_RV: [usize; 8] = [4, 6, 8, 9, 10, 11, 12, 13];
 
 struct G<'a> {
     rng: &'a mut Rng,
@@ -103,9 +114,12 @@ impl<'a> G<'a> {
         let nt = self.rng.range(1, 4);
         for t in 0..nt {
             let nx = match self.rng.below(6) { 0 => 1, 1 => 2, 2 => 2, 3 => 3, 4 => self.rng.range(4, 6), _ => self.rng.range(1, 6) };
+            // heap focus: what matters is what runs; few constructors keep the emitted code (one clause each) small
+            let nx = if self.cfg.heap_focus { nx.min(3) } else { nx };
             let mut xtors = Vec::new();
             for i in 0..nx {
                 let nargs = match self.rng.below(8) { 0 => 0, 1 => 1, 2 => 2, 3 => 3, 4 => 4, 5 => self.rng.range(5, 6), 6 => self.rng.range(7, 8), _ => self.rng.range(0, 8) };
+                let nargs = if self.cfg.heap_focus && nargs == 0 && self.rng.chance(2, 3) { self.rng.range(1, 4) } else { nargs };
                 let mut args = Vec::new();
                 for _ in 0..nargs {
                     let k = if t == 0 || self.rng.chance(3, 5) { Self::ext_kind() } else {
@@ -127,6 +141,7 @@ impl<'a> G<'a> {
     }
     fn gen_sigs(&mut self) {
         let nd = self.rng.range(1, 4);
+        let nd = if self.cfg.heap_focus { nd.min(2) } else { nd };
         let nargs = self.rng.below(self.cfg.max_args + 1);
         let mut params = Vec::new();
         for _ in 0..nargs { let b = self.fresh_binding(&Self::ext_kind()); params.push(b); }
@@ -189,10 +204,12 @@ impl<'a> G<'a> {
         let over = ctx.len() > self.target;
         for i in 0..ctx.len() {
             if exclude.contains(&i) && self.rng.chance(2, 3) { continue; }
-            let drop = if over { self.rng.chance(1, 3) } else { self.rng.chance(1, 12) };
+            let is_obj = ctx[i].chi != Chirality::Ext;
+            let drop = if over { self.rng.chance(1, 3) } else if self.cfg.heap_focus && is_obj { self.rng.chance(1, 6) } else { self.rng.chance(1, 12) };
             if drop { continue; }
             v.push(i);
             if !over && v.len() < room && self.rng.chance(1, 10) { v.push(i); }
+            if self.cfg.heap_focus && is_obj && v.len() < room && self.rng.chance(1, 6) { v.push(i); }
         }
         match self.rng.below(6) {
             0 => self.shuffle(&mut v),
@@ -333,9 +350,14 @@ impl<'a> G<'a> {
         let w_print = if ex.is_empty() { 0 } else { 2 };
         let w_ifc = if ex.is_empty() || budget < 3 { 0 } else { 2 };
         let w_subst = if len == 0 { 0 } else if len > self.target { 6 } else { 2 };
-        let w_let = 3;
-        let w_switch = if has_prd { 3 } else { 0 };
-        let w_create = 2;
+        let hf = self.cfg.heap_focus;
+        let w_lit = if hf && !under && !full { 2 } else { w_lit };
+        let w_print = if hf { w_print.min(1) } else { w_print };
+        let w_ifc = if hf { w_ifc.min(1) } else { w_ifc };
+        let w_subst = if hf && len > 0 { w_subst.max(4) } else { w_subst };
+        let w_let = if hf { 8 } else { 3 };
+        let w_switch = if has_prd { if hf { 9 } else { 3 } } else { 0 };
+        let w_create = if hf { 3 } else { 2 };
         let total = w_lit + w_op + w_print + w_ifc + w_subst + w_let + w_switch + w_create;
         let mut r = self.rng.below(total);
         #[allow(unused_assignments)]
@@ -518,8 +540,8 @@ pub fn gen_program(rng: &mut Rng, cfg: &Cfg) -> Prog {
     let mut defs = Vec::new();
     for d in 0..g.sigs.len() {
         g.cur_def = d;
-        g.target = (*g.rng.pick(&TARGETS)).min(g.cfg.max_live);
-        let budget = g.target + g.rng.range(4, 40);
+        g.target = (*g.rng.pick(g.cfg.targets)).min(g.cfg.max_live);
+        let budget = g.target + g.rng.range(4, 40) + if g.cfg.heap_focus { 16 } else { 0 };
         let (name, params) = g.sigs[d].clone();
         let body = g.stmt(params.clone(), budget);
         defs.push(Def { name, context: tc(params), body });
